@@ -222,7 +222,7 @@ Proof.
   unfold write_formula. destruct (f_ref f) as [r|]; [|apply le_refl].
   destruct (nth_error dims (r_owner r)) as [ko|]; [|apply le_refl].
   destruct (option_eqb _ _ _); [|apply le_refl].
-  destruct (concat _) as [|t ts]; [apply le_refl|].
+  destruct (ft_terms _ _ _ _ _) as [|t ts]; [apply le_refl|].
   destruct (lookup_nat _ _) as [ov|]; [|apply le_refl].
   destruct (negb (m_post m) || fx_formula (m_var m)).
   - destruct (assoc ov (w_bnds s)).
@@ -381,53 +381,79 @@ Proof.
   destruct d; auto.
 Qed.
 
-Definition registers (s s' : wst) (c : content) (nv : string) (d : list string) : Prop :=
-  In {| e_c := c; e_ncvar := nv; e_ncdims := d |} (w_seen s') /\
-  ~ In {| e_c := c; e_ncvar := nv; e_ncdims := d |} (w_seen s) \/
-  In {| e_c := c; e_ncvar := nv; e_ncdims := d |} (w_seen s').
+Lemma write_var_seen m n d c a r s :
+  In {| e_c := c; e_ncvar := n; e_ncdims := d |} (w_seen (write_var m n d c a r s)).
+Proof.
+  unfold write_var, create_var.
+  match goal with |- In ?x (w_seen (if ?b then ?a else _)) =>
+    assert (G : In x (w_seen a)) by (simpl; apply in_or_app; right; left; reflexivity);
+    destruct b; [exact G|] end.
+  destruct (smem _ _); simpl; apply in_or_app; right; left; reflexivity.
+Qed.
 
-Theorem aux_shared_only_if_equal m k d s :
-  let '(nv, s') := write_aux m k d s in
+Theorem aux_shared_only_if_equal m k d s nv s' :
+  write_aux m k d s = (nv, s') ->
   (exists e, In e (w_seen s) /\ e_ncvar e = nv /\ content_eqb false (k_c k) (e_c e) = true /\
              list_eqb String.eqb d (e_ncdims e) = true /\ s' = s)
   \/ (find_seen false (k_c k) (Some d) s = None /\
       In {| e_c := k_c k; e_ncvar := nv; e_ncdims := d |} (w_seen s')).
 Proof.
   unfold write_aux. destruct (find_seen false (k_c k) (Some d) s) as [e|] eqn:E.
-  - left. apply find_seen_sound in E as (A & B & C). exists e. auto.
-  - right. split; [reflexivity|].
-    destruct (netcdf_name _ s) as [nv s1]. destruct (write_bounds _ _ _ _ _ s1) as [ex s2].
-    unfold write_var, create_var.
-    match goal with |- In ?x (w_seen (if ?b then ?a else _)) =>
-      assert (G : In x (w_seen a)) by (simpl; apply in_or_app; right; left; reflexivity);
-      destruct b; [exact G|] end.
-    destruct (smem _ _); simpl; apply in_or_app; right; left; reflexivity.
+  - intro H. inversion H; subst. left. apply find_seen_sound in E as (A & B & C). exists e. auto.
+  - intro H. right. split; [reflexivity|].
+    destruct (netcdf_name _ s) as [n1 s1]. destruct (write_bounds _ _ _ _ _ s1) as [ex s2].
+    inversion H; subst. apply write_var_seen.
 Qed.
 
-Theorem dimcoord_shared_only_if_equal m ax k c s :
-  let '((nv, nd), s') := write_dimcoord m ax k c s in
+Theorem msr_shared_only_if_equal m k d s nv s' :
+  write_msr m k d s = (nv, s') ->
+  (exists e, In e (w_seen s) /\ e_ncvar e = nv /\ content_eqb false (k_c k) (e_c e) = true /\
+             list_eqb String.eqb d (e_ncdims e) = true /\ s' = s)
+  \/ (find_seen false (k_c k) (Some d) s = None /\
+      In {| e_c := k_c k; e_ncvar := nv; e_ncdims := d |} (w_seen s')).
+Proof.
+  unfold write_msr. destruct (find_seen false (k_c k) (Some d) s) as [e|] eqn:E.
+  - intro H. inversion H; subst. left. apply find_seen_sound in E as (A & B & C). exists e. auto.
+  - intro H. right. split; [reflexivity|].
+    destruct (netcdf_name _ s) as [n1 s1]. inversion H; subst. apply write_var_seen.
+Qed.
+
+Theorem anc_shared_only_if_equal m k d df s nv s' :
+  write_anc m k d df s = (nv, s') ->
+  (exists e, In e (w_seen s) /\ e_ncvar e = nv /\ content_eqb true (k_c k) (e_c e) = true /\
+             list_eqb String.eqb d (e_ncdims e) = true /\ s' = s)
+  \/ (find_seen true (k_c k) (Some d) s = None /\
+      In {| e_c := k_c k; e_ncvar := nv; e_ncdims := d |} (w_seen s')).
+Proof.
+  unfold write_anc. destruct (find_seen true (k_c k) (Some d) s) as [e|] eqn:E.
+  - intro H. inversion H; subst. left. apply find_seen_sound in E as (A & B & C). exists e. auto.
+  - intro H. right. split; [reflexivity|].
+    destruct (netcdf_name _ s) as [n1 s1]. destruct (write_bounds _ _ _ _ _ s1) as [ex s2].
+    inversion H; subst. apply write_var_seen.
+Qed.
+
+Theorem dimcoord_shared_only_if_equal m ax k c s nv nd s' :
+  write_dimcoord m ax k c s = ((nv, nd), s') ->
   (exists e, In e (w_seen s) /\ e_ncvar e = nv /\ content_eqb false c (e_c e) = true /\ s' = s)
-  \/ nd = nv.
+  \/ (nd = nv /\ In {| e_c := c; e_ncvar := nv; e_ncdims := [nv] |} (w_seen s')).
 Proof.
   unfold write_dimcoord.
+  assert (C : forall base,
+    (let '(nv0, s1) := base in
+     let '(extra, s3) := write_bounds m k c [nv0] nv0
+                          (create_dim m nv0 (a_size ax) (upd_dimsz (cons (nv0, a_size ax)) s1)) in
+     (nv0, nv0, write_var m nv0 [nv0] c (c_props c) extra s3)) = (nv, nd, s') ->
+    nd = nv /\ In {| e_c := c; e_ncvar := nv; e_ncdims := [nv] |} (w_seen s')).
+  { intros [nv0 s1]. destruct (write_bounds _ _ _ _ _ _) as [ex s3]. intro H.
+    inversion H; subst. split; [reflexivity | apply write_var_seen]. }
   destruct (find_seen false c None s) as [e|] eqn:E.
   - apply find_seen_sound in E as (A & B & _).
     destruct (e_ncdims e) as [|d0 r].
-    + left. exists e. auto.
+    + intro H. inversion H; subst. left. exists e. auto.
     + destruct (String.eqb (e_ncvar e) d0) eqn:En.
-      * left. exists e. auto.
-      * destruct (name_of k c None).
-        -- destruct (netcdf_name _ _). destruct (write_bounds _ _ _ _ _ _). right; reflexivity.
-        -- destruct (a_ncdim ax); [destruct (fx_dimname _)|].
-           ++ destruct (netcdf_name _ _). destruct (write_bounds _ _ _ _ _ _). right; reflexivity.
-           ++ destruct (write_bounds _ _ _ _ _ _). right; reflexivity.
-           ++ destruct (netcdf_name _ _). destruct (write_bounds _ _ _ _ _ _). right; reflexivity.
-  - destruct (name_of k c None).
-    + destruct (netcdf_name _ _). destruct (write_bounds _ _ _ _ _ _). right; reflexivity.
-    + destruct (a_ncdim ax); [destruct (fx_dimname _)|].
-      * destruct (netcdf_name _ _). destruct (write_bounds _ _ _ _ _ _). right; reflexivity.
-      * destruct (write_bounds _ _ _ _ _ _). right; reflexivity.
-      * destruct (netcdf_name _ _). destruct (write_bounds _ _ _ _ _ _). right; reflexivity.
+      * intro H. inversion H; subst. left. exists e. auto.
+      * intro H. right. eapply C. exact H.
+  - intro H. right. eapply C. exact H.
 Qed.
 
 (* ------------------------------------------------------------------------ *)
@@ -531,17 +557,49 @@ Theorem iterated_refused_step vr nc4 reread e n r :
   refuse vr nc4 (reread e) n = true ->
   append_seq vr nc4 reread e (n :: r) = append_seq vr nc4 reread e r.
 Proof.
-  intro H. simpl. destruct (refuse_first vr nc4 e (reread e) n H) as (_ & _ & _ & E).
+  intro H. cbn [append_seq]. destruct (refuse_first vr nc4 e (reread e) n H) as (_ & _ & _ & E).
   rewrite E. reflexivity.
 Qed.
 
-(* ------------------------------------------------------------------------ *)
-(* 8. One new data variable per appended field                                *)
-(* ------------------------------------------------------------------------ *)
-Definition nvars (s : wst) : nat := length (d_vars (w_file s)).
 
-Definition grows (s s' : wst) : Prop :=
-  (w_err s = true -> w_err s' = true) /\ (nvars s <= nvars s')%nat.
-
-Lemma err_mono_file s s' : le s s' -> True.
-Proof. trivial. Qed.
+(* ------------------------------------------------------------------------ *)
+(* 8. formula_terms of an appended field (C17-fix-1), under the exact guard   *)
+(* ------------------------------------------------------------------------ *)
+Theorem formula_terms_written m f dims x av s r ko ov :
+  f_ref f = Some r -> nth_error dims (r_owner r) = Some ko ->
+  prop_of (c_props (k_c ko)) "standard_name" = Some (r_sn r) ->
+  ft_terms f r ko av s <> [] ->
+  lookup_nat (r_owner r) (x_dimvar x) = Some ov ->
+  m_dry m = false -> w_err s = false -> fx_formula (m_var m) = true ->
+  In ov (w_created s) ->                       (* the owning coordinate variable is new *)
+  assoc ov (w_bnds s) <> Some ov ->
+  forall v, In v (d_vars (w_file s)) -> v_name v = ov ->
+  exists v', In v' (d_vars (w_file (write_formula m f dims x av s))) /\ v_name v' = ov /\
+             In ("formula_terms", map fst (ft_terms f r ko av s)) (v_refs v').
+Proof.
+  intros Hr Hk Hsn Ht Hov Hdry Herr Hfx Hcr Hb v Hv Hname.
+  unfold write_formula. rewrite Hr, Hk, Hsn. simpl option_eqb. rewrite String.eqb_refl.
+  destruct (ft_terms f r ko av s) as [|t ts] eqn:Et; [congruence|]. rewrite Hov.
+  replace (negb (m_post m) || fx_formula (m_var m)) with true by (rewrite Hfx, orb_true_r; reflexivity).
+  set (T := t :: ts) in *.
+  assert (S1 : exists v1, In v1 (d_vars (w_file (set_created_ref m ov "formula_terms" (map fst T) s))) /\
+                          v_name v1 = ov /\ In ("formula_terms", map fst T) (v_refs v1) /\
+                          w_err (set_created_ref m ov "formula_terms" (map fst T) s) = false /\
+                          m_dry m = false).
+  { unfold set_created_ref. rewrite Hdry, Herr. simpl orb.
+    assert (E : smem ov (w_created s) = true) by (apply smem_In; exact Hcr). rewrite E. simpl.
+    exists (add_ref "formula_terms" (map fst T) v). repeat split; auto.
+    - apply in_map_iff. exists v. split; [|exact Hv].
+      rewrite Hname, String.eqb_refl. reflexivity.
+    - unfold add_ref; simpl. apply in_or_app. right. left. reflexivity. }
+  destruct S1 as (v1 & Hin1 & Hn1 & Hr1 & He1 & _).
+  destruct (assoc ov (w_bnds s)) as [bv|] eqn:Eb.
+  - assert (Hne : bv <> ov) by (intro; subst; apply Hb; reflexivity).
+    unfold set_created_ref at 1. rewrite Hdry, He1. simpl orb.
+    destruct (smem bv _).
+    + simpl. exists v1. repeat split; auto. apply in_map_iff. exists v1. split; [|exact Hin1].
+      rewrite Hn1. destruct (String.eqb ov bv) eqn:E; [|reflexivity].
+      apply String.eqb_eq in E. congruence.
+    + exists v1. auto.
+  - exists v1. auto.
+Qed.
